@@ -5,7 +5,7 @@
 # usage: tools/suite.sh [tree]
 tree="${1:-/repo}"
 out=$(mktemp /tmp/suite.XXXXXX.json)
-cd "$tree" && GOFLAGS=-mod=mod GOPROXY=off GOSUMDB=off GOTOOLCHAIN=local GOWORK=off \
+cd "$tree" && flock /tmp/ergo-test.lock env GOFLAGS=-mod=mod GOPROXY=off GOSUMDB=off GOTOOLCHAIN=local GOWORK=off \
   go test -json -vet=off -count=1 -timeout 200s ./... > "$out" 2>/dev/null
 python3 - "$out" <<'PY'
 import json,sys
